@@ -16,54 +16,79 @@ FULL STATEMENT: for every history, `hrun … = specHRun …`.
 * Dusq: FALSE when two values are `==` but serialise differently (`dusq_mirror_fails_without_guard`, DESIGN F38,
   known finding C23-K1); proved under `∀ a b, cls a = cls b → a = b` (`==` coincides with equality of
   serialisations) — `dusq_refines_oset_partial`.
-Both are for a store whose other keys never extend `key ++ '.'` (the guard of C24; `QInv` packages: store
-well-formed over a sep-prefix-free key set, durable copy at the key = in-memory content).
+Both are for a store satisfying the EXACT guard of C24 at the queue keys (`ExactAt K k B`: no other key of the store has its
+ordinal-0 entry between `suffix k 0` and `suffix k B`, `B` ≥ the ordinals the history consumes; implied by "no key extends
+another key ++ '.'").  `QInv` / `MInv` package: store well-formed, durable copy at the key(s) = in-memory content.
+`hold_refines` is the one theorem for several queues in one Hold with reopen anywhere.
 -/
 namespace Hio.Store
 
 section
 variable {α : Type} [DecidableEq α] (cls : Bytes → α)
 
-/-- Durq = FIFO queue, durable copy = content, reopen = identity; every history, every reopen point, any `==`. -/
-theorem durq_refines_fifo (K : Bytes → Prop) (hK : SepFree K) (k : Bytes) (hk : K k) (hvk : validKey (suffix k 0) = true)
-    (os : List HOp) (n : Nat) (db : Db) (q : Q) (hq : QInv K k .durq n db q.mem) (hfit : n + htotal os ≤ 16 ^ W) :
+/-- Durq = FIFO queue, durable copy = content, reopen = identity; every history WITH REOPEN AT ARBITRARY POSITIONS
+(the crash-point quantifier is inside: `HOp.reopen` is an operation of the history), any `==`. -/
+theorem durq_refines_fifo (K : Bytes → Prop) (k : Bytes) (hk : K k) (B : Nat) (hE : ExactAt K k B) (hB : B < 16 ^ W)
+    (hvk : validKey (suffix k 0) = true) (τ : St)
+    (os : List HOp) (n : Nat) (db : Db) (q : Q) (hq : QInv K k .durq n db q.mem τ) (hfit : n + htotal os ≤ B) :
     hrun cls .durq k db q os = specHRun cls .durq q.mem os :=
-  hrun_refines cls (fun h => by cases h) hK hk hvk os n db q hq hfit
+  hrun_refines cls (fun h => by cases h) hk hE hB hvk os n db q hq hfit
 
 /-- Dusq = insertion-ordered set with FIFO pull (partial: `==` agrees with serialisation equality). -/
 theorem dusq_refines_oset_partial (hinj : ∀ a b, cls a = cls b → a = b)
-    (K : Bytes → Prop) (hK : SepFree K) (k : Bytes) (hk : K k) (hvk : validKey (suffix k 0) = true)
-    (os : List HOp) (n : Nat) (db : Db) (q : Q) (hq : QInv K k .dusq n db q.mem) (hfit : n + htotal os ≤ 16 ^ W) :
+    (K : Bytes → Prop) (k : Bytes) (hk : K k) (B : Nat) (hE : ExactAt K k B) (hB : B < 16 ^ W)
+    (hvk : validKey (suffix k 0) = true) (τ : St)
+    (os : List HOp) (n : Nat) (db : Db) (q : Q) (hq : QInv K k .dusq n db q.mem τ) (hfit : n + htotal os ≤ B) :
     hrun cls .dusq k db q os = specHRun cls .dusq q.mem os :=
-  hrun_refines cls (fun _ => hinj) hK hk hvk os n db q hq hfit
+  hrun_refines cls (fun _ => hinj) hk hE hB hvk os n db q hq hfit
 
-/-- DURABLE MIRROR: after every operation of every history the durable content at the key is the in-memory
-content, in the same order (Durq: any `cls`; Dusq: under the guard). -/
+/-- ONE REFINEMENT THEOREM for the whole Hold: several queues of one kind at the keys `keys` in one store, histories of
+operations addressed to any of them WITH REOPEN (close, open, fresh objects injected at every key, sync) AT ARBITRARY
+POSITIONS.  After every step, for EVERY key: result, in-memory content and durable content are those of independent FIFO
+queues / ordered sets (`specMRun`: durable column = content, reopen = identity, an operation on one key changes no other).
+This contains `durable_mirror`, `reopen_restores` and key independence. -/
+theorem hold_refines (kind : QKind) (hinj : kind = .dusq → ∀ a b, cls a = cls b → a = b)
+    (K : Bytes → Prop) (B : Nat) (hG : ∀ k, K k → ExactAt K k B) (hB : B < 16 ^ W)
+    (hvk : ∀ k, K k → validKey (suffix k 0) = true) (keys : List Bytes) (hkeys : ∀ k ∈ keys, K k)
+    (os : List MOp) (n : Nat) (db : Db) (ms : MS) (σ : St) (hm : MInv K kind keys n db ms) (hσ : ∀ k ∈ keys, σ k = (ms k).mem)
+    (hos : ∀ o ∈ os, ∀ k qo, o = .q k qo → k ∈ keys) (hfit : n + mtotal os ≤ B) :
+    mrun cls kind keys db ms os = specMRun cls kind keys σ os :=
+  mrun_refines cls hinj hG hB hvk keys hkeys os n db ms σ hm hσ hos hfit
+
+/-- the specification side of key independence: an operation addressed to `k` leaves every other queue's content alone -/
+theorem spec_other_queue_unchanged (kind : QKind) (σ : St) (k k' : Bytes) (o : QOp) (h : k' ≠ k) :
+    (specM cls kind σ (.q k o)).1 k' = σ k' := by simp [specM, upd, h]
+
+/-- DURABLE MIRROR: after every operation of every history (reopen anywhere) the durable content at the key is the
+in-memory content, in the same order (Durq: any `cls`; Dusq: under the guard). -/
 theorem durable_mirror (kind : QKind) (hinj : kind = .dusq → ∀ a b, cls a = cls b → a = b)
-    (K : Bytes → Prop) (hK : SepFree K) (k : Bytes) (hk : K k) (hvk : validKey (suffix k 0) = true)
-    (os : List HOp) (n : Nat) (db : Db) (q : Q) (hq : QInv K k kind n db q.mem) (hfit : n + htotal os ≤ 16 ^ W) :
+    (K : Bytes → Prop) (k : Bytes) (hk : K k) (B : Nat) (hE : ExactAt K k B) (hB : B < 16 ^ W)
+    (hvk : validKey (suffix k 0) = true) (τ : St)
+    (os : List HOp) (n : Nat) (db : Db) (q : Q) (hq : QInv K k kind n db q.mem τ) (hfit : n + htotal os ≤ B) :
     ∀ x ∈ hrun cls kind k db q os, x.2.2 = .ok x.2.1 := by
-  rw [hrun_refines cls hinj hK hk hvk os n db q hq hfit]
+  rw [hrun_refines cls hinj hk hE hB hvk os n db q hq hfit]
   exact specHRun_mirror cls kind os q.mem
 
 /-- REOPEN RESTORES: after ANY history (i.e. at any point between operations) closing, reopening and re-injecting
 a fresh queue object yields exactly the content held before, and the durable copy still equals it. -/
 theorem reopen_restores (kind : QKind) (hinj : kind = .dusq → ∀ a b, cls a = cls b → a = b)
-    (K : Bytes → Prop) (hK : SepFree K) (k : Bytes) (hk : K k) (hvk : validKey (suffix k 0) = true)
-    (os : List HOp) (n : Nat) (db : Db) (q : Q) (hq : QInv K k kind n db q.mem) (hfit : n + htotal os ≤ 16 ^ W) :
+    (K : Bytes → Prop) (k : Bytes) (hk : K k) (B : Nat) (hE : ExactAt K k B) (hB : B < 16 ^ W)
+    (hvk : validKey (suffix k 0) = true) (τ : St)
+    (os : List HOp) (n : Nat) (db : Db) (q : Q) (hq : QInv K k kind n db q.mem τ) (hfit : n + htotal os ≤ B) :
     ∃ db' q', hstep cls kind k (hfinal cls kind k db q os).1 (hfinal cls kind k db q os).2 .reopen = (db', q', .bool true) ∧
       q'.mem = (hfinal cls kind k db q os).2.mem ∧ durable db' k = .ok (hfinal cls kind k db q os).2.mem := by
-  have hf := hfinal_inv cls hinj hK hk hvk os n db q hq hfit
-  obtain ⟨db', q', h1, h2, h3⟩ := hstep_refines cls hinj hK hk hvk hf .reopen (by simp [hweight]; omega)
+  have hf := hfinal_inv cls hinj hk hE hB hvk os n db q hq hfit
+  obtain ⟨db', q', h1, h2, h3⟩ := hstep_refines cls hinj hk hE hB hvk hf .reopen (by simp [hweight]; omega)
   refine ⟨db', q', h1, h2, ?_⟩
-  rw [durable, getIoVals_spec h3.rel.inv (h3.rel.noChild hK hk), h3.mirror, h2]; rfl
+  rw [durable, getIoVals_spec h3.rel.inv (h3.rel.noChild hE hB (by simp [hweight]; omega)), h3.mirror, h2]; rfl
 
 /-- no `HierError` ("Mismatch between cache and durable") ever escapes, and `remove` never raises (F37 repaired) -/
 theorem no_mismatch_error (kind : QKind) (hinj : kind = .dusq → ∀ a b, cls a = cls b → a = b)
-    (K : Bytes → Prop) (hK : SepFree K) (k : Bytes) (hk : K k) (hvk : validKey (suffix k 0) = true)
-    (os : List HOp) (n : Nat) (db : Db) (q : Q) (hq : QInv K k kind n db q.mem) (hfit : n + htotal os ≤ 16 ^ W) :
+    (K : Bytes → Prop) (k : Bytes) (hk : K k) (B : Nat) (hE : ExactAt K k B) (hB : B < 16 ^ W)
+    (hvk : validKey (suffix k 0) = true) (τ : St)
+    (os : List HOp) (n : Nat) (db : Db) (q : Q) (hq : QInv K k kind n db q.mem τ) (hfit : n + htotal os ≤ B) :
     ∀ x ∈ hrun cls kind k db q os, x.1 ≠ .raise .hierError := by
-  rw [hrun_refines cls hinj hK hk hvk os n db q hq hfit]
+  rw [hrun_refines cls hinj hk hE hB hvk os n db q hq hfit]
   exact specHRun_no_hier cls kind os q.mem
 
 end
@@ -99,8 +124,16 @@ theorem dusq_mirror_fails_without_guard :
 /-! ## the hypotheses are satisfiable -/
 
 /-- the empty store with an empty queue at key "q", alone or next to other keys -/
-example : QInv (fun k => k = [113] ∨ k = [114]) [113] .dusq 0 [] [] :=
-  ⟨⟨inv_nil, by simp, (by intro e he; cases he), fun _ => rfl⟩, rfl, fun _ => List.nodup_nil⟩
+example : QInv (fun k => k = [113] ∨ k = [114]) [113] .dusq 0 [] [] (fun _ => []) :=
+  ⟨⟨inv_nil, by simp, (by intro e he; cases he), fun _ => rfl⟩, rfl, fun _ => List.nodup_nil, fun _ _ => rfl⟩
+
+/-- … and the freshly built Hold over the empty store satisfies the invariant of `hold_refines` -/
+example : MInv (fun k => k = [113] ∨ k = [114]) .dusq [[113], [114]] 0 [] (fun _ => ⟨[], false⟩) :=
+  ⟨⟨inv_nil, by simp, (by intro e he; cases he), fun _ => rfl⟩, fun _ _ => ⟨rfl, fun _ => List.nodup_nil⟩⟩
+
+example : ∀ k, (fun k => k = [113] ∨ k = [114]) k → ExactAt (fun k => k = [113] ∨ k = [114]) k 100000 := by
+  intro k hk k' hk' hne
+  rcases hk with rfl | rfl <;> rcases hk' with rfl | rfl <;> first | exact absurd rfl hne | decide +kernel
 
 example : SepFree (fun k => k = [113] ∨ k = [114]) := by
   intro k k' hk hk' _
